@@ -99,7 +99,7 @@ class C07:
             "from the CLI surface: dict strategy incl. -k, -l/-ll, -e/-d/full, --format, --html, colour flags, "
             "-j/-jl/-jd, status flags) executed twice each at seeded positions of one in-process history with "
             "interleaved library calls, in 3 child interpreters (hash seeds 0, 1, seeded; ASLR off/on; heap shift); "
-            "plus 3 purity sessions with seeded cancellation. evaluations = main() executions + purity comparisons. "
+            "plus 30 purity sessions with seeded cancellation. evaluations = main() executions + purity comparisons. "
             "non-trivial: item whose documents differ and whose stdout is non-empty; distinct by hash of "
             "(format, documents, options).")
     ASSUMPTIONS = [
@@ -146,7 +146,7 @@ class C07:
                 {"hashseed": env.randrange(2, 1 << 30), "aslr_off": env.random() < 0.5,
                  "heap_shift": env.choice([0, 12345])}]
         purity = []
-        for _ in range(3):
+        for _ in range(30):
             seam = fs.choice([None, "clock", "write", "step", "step"])
             purity.append({"wl": sched.gen_workload(w), "mode": fs.choice(["diff", "get_all_edits", "edits_drive"]),
                            "quiet": fs.random() < 0.4, "clock": fs.choice(["frozen", "0.2s", "3s"]),
